@@ -240,12 +240,66 @@ def errors_counter(
     return counter, unknown
 
 
+def has_astral(value: Any) -> bool:
+    if isinstance(value, str):
+        return any(ord(ch) > 0xFFFF for ch in value)
+    if isinstance(value, list):
+        return any(has_astral(v) for v in value)
+    if isinstance(value, dict):
+        return any(has_astral(v) for v in value.values())
+    return False
+
+
+def ends_with_newline(value: Any) -> bool:
+    if isinstance(value, str):
+        return value.endswith("\n")
+    if isinstance(value, list):
+        return any(ends_with_newline(v) for v in value)
+    if isinstance(value, dict):
+        return any(ends_with_newline(v) for v in value.values())
+    return False
+
+
+def newline_view(value: Any) -> Any:
+    """Copy with the trailing line feed of every string replaced by a carriage return."""
+    if isinstance(value, str):
+        return value[:-1] + "\r" if value.endswith("\n") else value
+    if isinstance(value, list):
+        return [newline_view(v) for v in value]
+    if isinstance(value, dict):
+        return {k: newline_view(v) for k, v in value.items()}
+    return value
+
+
+def utf16_view(value: Any) -> Any:
+    """Copy with every astral character replaced by two private-use characters."""
+    if isinstance(value, str):
+        return "".join("\ue000\ue001" if ord(ch) > 0xFFFF else ch for ch in value)
+    if isinstance(value, list):
+        return [utf16_view(v) for v in value]
+    if isinstance(value, dict):
+        return {k: utf16_view(v) for k, v in value.items()}
+    return value
+
+
 def invariant_feature(pm: pyexec.PyModel, cause: str) -> str:
     from vf.checks.c08 import feature_of
+
+    import ast
 
     for cls in pm.classes.values():
         for inv in cls.own_invariants:
             if inv.description == cause:
+                for node in ast.walk(inv.node.body):
+                    if (
+                        isinstance(node, ast.Compare)
+                        and isinstance(node.ops[0], (ast.Eq, ast.NotEq))
+                        and any(
+                            isinstance(side, ast.Constant) and isinstance(side.value, str)
+                            for side in [node.left] + node.comparators
+                        )
+                    ):
+                        return "string-equality"
                 return feature_of(inv.node.body)
     return "description-not-verbatim"
 
@@ -335,15 +389,17 @@ def compare_leg(
             rec = second
         counter_name = f"{leg}_{'mutants' if case.kind == 'mutant' else 'instances'}_compared"
         chk.count(counter_name)
+        ref_doc = case.doc
         if json_leg:
             ref = case.ref
             if leg == "typescript" and case.kind == "mutant":
-                stripped = xsdk.strip_unknown_properties(facts, case.cls, case.doc)
-                if stripped != case.doc:
-                    # documented design of the TypeScript SDK: unknown members are ignored
-                    chk.count("typescript_mutants_judged_without_their_unknown_properties")
+                view = xsdk.javascript_view(facts, case.cls, case.doc)
+                if xsdk.locate_difference(case.doc, view) is not None:
+                    ref_doc = view
+                    # documented limits: JSON.parse erases int/float, unknown members ignored
+                    chk.count("typescript_mutants_judged_on_their_javascript_view")
                     ref = py_document(
-                        sdk, case.cls, json.dumps(stripped, ensure_ascii=True, allow_nan=False)
+                        sdk, case.cls, json.dumps(view, ensure_ascii=True, allow_nan=False)
                     )
         else:
             # C++: instance built from the abstract instance; reference = the built object
@@ -377,8 +433,11 @@ def compare_leg(
                         supplied = xsdk.supplied_kind(value, declared)
                         if what == "extra":
                             shape = f"extra-item-{supplied}-in-list"
+                        elif supplied == "null":
+                            shape = f"null-for-{declared}"
                         else:
-                            shape = f"{supplied}-for-{declared}"
+                            # optionality matters only for null / missing
+                            shape = f"{supplied}-for-{declared.replace('optional-', '')}"
                 else:
                     shape = "document-written-by-python-sdk"
                 message = rec.get("message") if verdicts[0] == "accepted" else ref.get("message")
@@ -425,14 +484,50 @@ def compare_leg(
                 )
             elif want != got:
                 missing, extra = want - got, got - want
+                # TypeScript and Java strings are sequences of UTF-16 code units, Python's
+                # of code points.  If the Python SDK reports exactly the other SDK's
+                # errors once every character beyond the basic plane is replaced by two
+                # private-use characters (= its two UTF-16 code units), the disagreement
+                # is that one mechanism.
+                astral = ""
+                hypotheses = []
+                if leg in ("typescript", "java") and has_astral(ref_doc):
+                    hypotheses.append(("string-length-counts-utf16-code-units", utf16_view))
+                    astral = "/instance-has-astral-characters"
+                if leg == "typescript" and ends_with_newline(ref_doc):
+                    # Python's ``$`` also matches before a trailing line feed, ECMAScript's
+                    # does not: judge the document with that line feed made a CR.
+                    hypotheses.append(
+                        ("pattern-dollar-does-not-match-before-trailing-newline", newline_view)
+                    )
+                for label, view_of in hypotheses:
+                    view = py_document(
+                        sdk, case.cls,
+                        json.dumps(view_of(ref_doc), ensure_ascii=True, allow_nan=False),
+                    )
+                    if view.get("errors") is None:
+                        continue
+                    as_viewed, _ = errors_counter(view["errors"], py_map)
+                    if as_viewed == got:
+                        chk.violation(
+                            f"{leg}/verification/{label}",
+                            witness(
+                                case,
+                                python_errors=[[list(p), c, k] for (p, c), k in want.items()],
+                                other_errors=[[list(p), c, k] for (p, c), k in got.items()],
+                            ),
+                        )
+                        missing, extra = collections.Counter(), collections.Counter()
+                        break
                 explained = collections.Counter()
                 for (path, cause), n in missing.items():
                     feature = invariant_feature(pm, cause)
                     # the same cause reported on a proper prefix of the expected path?
                     shorter = [
                         (p, c) for (p, c) in extra
-                        if c == cause and len(p) < len(path) and tuple(path[: len(p)]) == tuple(p)
-                        and extra[(p, c)] - explained[(p, c)] > 0
+                        if c == cause and len(p) == len(path) - 1
+                        and tuple(path[: len(p)]) == tuple(p)
+                        and extra[(p, c)] - explained[(p, c)] >= n
                     ]
                     if shorter:
                         explained[shorter[0]] += n
@@ -442,10 +537,15 @@ def compare_leg(
                             else "path-truncated/property-segment-lost"
                         )
                         key = f"{leg}/verification/{sub}"
+                    elif any(
+                        c == cause and p != path and sorted(map(str, p)) == sorted(map(str, path))
+                        for (p, c) in extra
+                    ):
+                        key = f"{leg}/verification/path-segments-in-wrong-order"
                     elif any(c == cause for (p, c) in extra):
-                        key = f"{leg}/verification/path-differs/{feature}"
+                        key = f"{leg}/verification/path-differs/{feature}{astral}"
                     else:
-                        key = f"{leg}/verification/missing-error/{feature}"
+                        key = f"{leg}/verification/missing-error/{feature}{astral}"
                     chk.violation(
                         key,
                         witness(
@@ -458,7 +558,7 @@ def compare_leg(
                     if any(c == cause for (p, c) in missing):
                         continue  # reported above as path-differs
                     chk.violation(
-                        f"{leg}/verification/extra-error/{invariant_feature(pm, cause)}",
+                        f"{leg}/verification/extra-error/{invariant_feature(pm, cause)}{astral}",
                         witness(
                             case, path=list(path), cause=cause,
                             python_errors=[[list(p), c, k] for (p, c), k in want.items()],
@@ -552,7 +652,7 @@ def check_model(
             if res.status in ("build-failed", "run-failed"):
                 for where, message in compiler_errors(res.detail):
                     chk.violation(
-                        f"{leg}/{res.status}/{where}|{xsdk.message_class(message)}",
+                        f"{leg}/{res.status}/{where}|{message}",
                         {"leg": leg, "model": name, "text": text, "detail": res.detail[-4000:]},
                     )
                 continue
@@ -561,7 +661,7 @@ def check_model(
                 chk.hist(f"{leg}_units_left_out_after_build_failure", ",".join(res.excluded_units))
                 for where, message in compiler_errors(res.partial_build_failure):
                     chk.violation(
-                        f"{leg}/build-failed/{where}|{xsdk.message_class(message)}",
+                        f"{leg}/build-failed/{where}|{message}",
                         {"leg": leg, "model": name, "text": text,
                          "detail": res.partial_build_failure[-4000:]},
                     )
@@ -594,24 +694,37 @@ SDK_UNITS = {
 
 
 def compiler_errors(text: str) -> List[Tuple[str, str]]:
-    """Distinct (file, message) pairs of javac / g++ diagnostics; else the first line."""
+    """Distinct (unit, message) pairs of javac / g++ diagnostics; else the first line."""
     import re
 
     found: List[Tuple[str, str]] = []
-    for line in text.splitlines():
-        m = re.search(r"([A-Za-z_0-9]+\.(?:java|cpp|hpp|ts)):[0-9]+(?::[0-9]+)?: (?:fatal )?error: (.*)", line)
-        if m:
-            # identifiers of the model are not part of the mechanism
-            message = re.sub(r"[\u2018'`][^\u2019'`]*[\u2019'`]", "Q", m.group(2))
-            unit = m.group(1)
-            if unit not in SDK_UNITS:
-                unit = "<model type>." + unit.rsplit(".", 1)[1]
-            pair = (unit, message)
-            if pair not in found:
-                found.append(pair)
+    lines = text.splitlines()
+    for k, line in enumerate(lines):
+        m = re.search(
+            r"([A-Za-z_0-9]+\.(?:java|cpp|hpp|ts)):[0-9]+(?::[0-9]+)?: (?:fatal )?error: (.*)", line
+        )
+        if not m:
+            continue
+        unit, message = m.group(1), m.group(2)
+        if unit not in SDK_UNITS:
+            unit = "<model type>." + unit.rsplit(".", 1)[1]
+        if message.startswith("cannot find symbol"):
+            for follow in lines[k + 1 : k + 5]:
+                sym = re.match(r"\s*symbol:\s+(.*)", follow)
+                if sym:
+                    message += " " + sym.group(1).strip()
+                    break
+        if re.match(r"package \S+ does not exist", message):
+            unit = "*"  # the same import fails in every unit
+        # identifiers of the model are not part of the mechanism
+        message = re.sub(r"[\u2018'`][^\u2019'`]*[\u2019'`]", "Q", message)
+        message = re.sub(r"\bvariable [A-Za-z_0-9]+", "variable V", message)
+        pair = (unit, message[:90])
+        if pair not in found:
+            found.append(pair)
     if not found:
-        found.append(("?", first_error_line(text)))
-    return found[:6]
+        found.append(("?", xsdk.message_class(first_error_line(text))))
+    return found[:8]
 
 
 def first_error_line(text: str) -> str:
@@ -712,7 +825,7 @@ def main(argv) -> int:
     chk.assume("integers within +-2^53 and finite floats only (JavaScript numbers, JSON)")
     chk.assume("JSON numbers compare after conversion to double; the sign of zero is not judged")
     chk.assume("messages of rejected documents are not compared, only accept/reject")
-    chk.assume("TypeScript ignores unknown object members by documented design (NOTE in the emitted de-serialiser): its verdict on a mutated document is compared with the Python verdict on the same document without those members")
+    chk.assume("TypeScript: JSON.parse cannot tell 1 from 1.0 and the emitted de-serialiser ignores unknown object members by documented design (NOTE in the generated code): its verdict on a mutated document is compared with the Python verdict on xsdk.javascript_view(document)")
     chk.assume("Java: the constant prefix 'Invariant violated:\\n' of every cause is stripped before causes are compared (design of the Java/C# SDKs)")
     chk.assume("C++: no JSON leg (nlohmann/json.hpp absent): instances are built through the generated constructors; verification, enumerations and constants are compared")
     chk.assume("models restricted to what all four generators accept (see xsdk.CommonGenerator); odd-numbered MMG models additionally use float properties, len(bytearray), integer sets and primitive constants, on which the Java leg is known to fail; models refused by one generator are skipped for that leg and counted")
